@@ -1,9 +1,20 @@
 """C14 - delimited (appendable) types evolve without breaking containers or the wire: layout half (lemmas over the C02
 contracts, specs/c14_layout.py) and, when present, the wire half (contracts on _serdes.py, specs/c14_wire.py)."""
+from . import c14_layout as _layout
 from .c14_layout import *  # noqa
 from .c14_layout import LEMMAS, LEAN  # noqa
 
 try:
-    from .c14_wire import *  # noqa
+    from . import c14_wire as _wire
+    from .c14_wire import *  # noqa  (NATIVE, NATIVE_BUDGET, EXTRA_CHECKS, LEVEL of the wire half)
 except ImportError:
-    pass
+    _wire = None
+
+if _wire is not None:
+    # module attributes that both halves define are combined, not overridden
+    LEAN = list(dict.fromkeys(list(getattr(_layout, "LEAN", [])) + list(_wire.LEAN)))
+    NOT_COVERED = list(getattr(_layout, "NOT_COVERED", [])) + [
+        x for x in _wire.NOT_COVERED if not x.startswith("layout half")]
+    ASSUMPTIONS = list(getattr(_layout, "ASSUMPTIONS", [])) + list(_wire.ASSUMPTIONS)
+    EXPLANATION = (getattr(_layout, "EXPLANATION", "") + "  Wire half: " + _wire.EXPLANATION).strip()
+    EXTRA_CHECKS = list(getattr(_layout, "EXTRA_CHECKS", [])) + list(_wire.EXTRA_CHECKS)
